@@ -34,7 +34,7 @@ def _is_all_blocking(t) -> bool:
     return it[0] == "call" and it[1] == "self.inputs.values"
 
 
-def _ts_max_candidates(q_start):
+def _ts_max_candidates(q_start, r=None, region_guard=None):
     """Reference terms for 'latest arrival the blocking inputs wait for, 0 if there are none', built from the
     comprehension L that pops q_ts_max (found by provenance)."""
     Ls = [x for x in T.walk(q_start) if x[0] == "comp" and x[2][0] == "call" and T.call_name(x[2]).endswith(".q_ts_max.popleft")]
@@ -49,6 +49,24 @@ def _ts_max_candidates(q_start):
         out.append(T.mk_ite(T.le(T.mk_call("len", [L]), T.ZERO), T.ZERO, mx))
         out.append(T.mk_call("max", [T.mk_call("+", [("list", (T.ZERO,)), L])]))
         out.append(T.mk_call("max", [T.mk_call("+", [L, ("list", (T.ZERO,))])]))
+    # the same collection built by an explicit loop: local list, one guarded append per input
+    if r is not None:
+        for L in [x for x in T.walk(q_start) if x[0] == "accum"]:
+            if not (L[1] == ("list", ()) and len(L[2]) == 1):
+                continue
+            _, g, elt, loops, how = L[2][0]
+            if how != "append" or not (elt[0] == "call" and T.call_name(elt).endswith(".q_ts_max.popleft")) or len(loops) != 1 or loops[0] not in r.loops:
+                continue
+            lp = r.loops[loops[0]]
+            if not (lp.iter[0] == "call" and lp.iter[1] == "self.inputs.values"):
+                continue
+            el = ("elem", lp.iter, lp.uid)
+            blocking = T.mk_attr(T.mk_attr(el, "connection"), "blocking")
+            recv_ok = isinstance(elt[1], tuple) and any(x == el for x in T.walk(elt[1]))
+            if not recv_ok or T.assume(g, blocking, True) != region_guard or T.assume(g, blocking, False) != T.FALSE:
+                continue
+            mx = T.mk_call("max", [L])
+            out.append(T.mk_ite(T.le(T.mk_call("len", [L]), T.ZERO), T.ZERO, mx))
     return out
 
 
@@ -60,6 +78,32 @@ def _blocking_filter(L) -> bool:
         return False
     c = conds[0]
     return c[0] == "attr" and c[2] == "blocking" and c[1][0] == "attr" and c[1][2] == "connection"
+
+
+def _max0_of_pops(v, n, r, guard) -> bool:
+    """v == max over {0} and, for each of the n awaited messages, the receive time (component 1) of one q_ts_input.popleft():
+    as `[0.0] + [comprehension over range(n)]` or as a local list seeded with 0.0 and appended to in a loop over range(n)."""
+    def is_recv(elt):
+        return elt[0] == "index" and T.const_value(elt[2]) == 1 and elt[1][0] == "call" and elt[1][1] == "self.q_ts_input.popleft"
+
+    def zero_list(a):
+        return a[0] == "list" and len(a[1]) == 1 and T.const_value(a[1][0]) == 0
+
+    if not (v[0] == "call" and v[1] == "max" and not v[3]):
+        return False
+    if len(v[2]) == 1:
+        c = v[2][0]
+        if c[0] == "call" and c[1] == "+":
+            a, b = c[2]
+            if b[0] == "list":
+                a, b = b, a
+            return zero_list(a) and b[0] == "comp" and not b[4] and is_recv(b[2]) and b[3][0][1] == T.mk_call("range", [n])
+        if c[0] == "accum" and zero_list(c[1]) and len(c[2]) == 1:
+            _, g, elt, loops, how = c[2][0]
+            return how == "append" and is_recv(elt) and g == guard and len(loops) == 1 and loops[0] in r.loops and r.loops[loops[0]].iter == T.mk_call("range", [n])
+    if len(v[2]) == 2:  # max(0.0, max(comprehension)) is not used today; max(0.0, *xs) neither: not recognised on purpose
+        return False
+    return False
 
 
 def run(chk: Check, model):
@@ -141,7 +185,7 @@ def run(chk: Check, model):
         chk.add("C04.only_blocking", "condition", good,
                 f"selector is {T.show(ob)}, expected self.node.advance and all(i.connection.blocking for i in inputs)", loc)
 
-    cands = _ts_max_candidates(q_start)
+    cands = _ts_max_candidates(q_start, r, ap.guard)
     TSMAX = None
     if not cands:
         chk.violation("C04.start", "ts_max", "ts_start does not contain max(0, arrivals popped from q_ts_max of the blocking inputs): "
@@ -256,15 +300,6 @@ def run(chk: Check, model):
     n = popped(r, "q_expected_ts_max")
     ap = one(queue_ops(r, "q_ts_max", "append"), "append on q_ts_max")
     v = ap.args[0]
-    ok = False
-    if v[0] == "call" and v[1] == "max" and len(v[2]) == 1 and v[2][0][0] == "call" and v[2][0][1] == "+":
-        a, b = v[2][0][2]
-        if b[0] == "list":
-            a, b = b, a
-        if a[0] == "list" and len(a[1]) == 1 and T.const_value(a[1][0]) == 0 and b[0] == "comp" and not b[4]:
-            elt, gens = b[2], b[3]
-            it = gens[0][1]
-            ok = (elt[0] == "index" and T.const_value(elt[2]) == 1 and elt[1][0] == "call" and elt[1][1] == "self.q_ts_input.popleft"
-                  and it == T.mk_call("range", [n]))
+    ok = _max0_of_pops(v, n, r, ap.guard)
     chk.add("C04.ts_max", "value", ok, f"q_ts_max gets {T.show(v)[:240]}, expected max([0.0] + [q_ts_input.popleft()[1] for _ in range(n)])",
             chk.loc(fi, ap.node))
